@@ -399,7 +399,8 @@ Proof. intros s s' x [] H. destruct e_tr0 as [l ->]. apply in_or_app; auto. Qed.
 
 (* ------------------------------------------------------------------ callbacks *)
 Lemma Inv_cb_read : forall x s, Inv s -> In x (clist s) ->
-  Inv (cb_read x s) /\ ext s (cb_read x s) /\ exists n, In (ERead x n) (tr (cb_read x s)).
+  Inv (cb_read x s) /\ ext s (cb_read x s) /\
+  exists t n, tr (cb_read x s) = t ++ tr s /\ In (ERead x n) t.
 Proof.
   intros x s I Hin. unfold cb_read.
   set (c := cx s x).
@@ -415,7 +416,10 @@ Proof.
   - eapply ext_trans; [|apply E4].
     eapply ext_trans; [apply (sv_ext s s1); auto|].
     eapply ext_trans; [apply ext_emit|]. apply sv_ext; auto. apply sv_set_trigs.
-  - exists (cq c). eapply ext_In_tr; [apply E4|]. simpl. left; auto.
+  - destruct E4. destruct e_tr0 as [t4 T4].
+    exists (t4 ++ [ERead x (cq c)]), (cq c). split.
+    + rewrite T4. simpl. rewrite <- app_assoc. auto.
+    + apply in_or_app. right; left; auto.
 Qed.
 
 Lemma Inv_set_flag : forall x s, Inv s -> Inv (set_flag x s) /\ ext s (set_flag x s).
